@@ -264,6 +264,38 @@ func runC17(c *vf.Ctx) {
 			if len(want) > 1 {
 				c.Inc("expanded_results")
 			}
+			// the same cached record expanded again for other looked-up metadata and another context, then once
+			// more for the first ones: each expansion depends on its own arguments only
+			if r.Intn(3) == 0 {
+				md2 := rbytes(r, 1+r.Intn(8))
+				ctx2 := ctxID
+				if r.Intn(2) == 0 && info.ExtendedProviders != nil && len(info.ExtendedProviders.Contextual) > 0 {
+					ctx2 = []byte(info.ExtendedProviders.Contextual[r.Intn(len(info.ExtendedProviders.Contextual))].ContextID)
+				}
+				for round, q := range []struct{ ctx, md []byte }{{ctx2, md2}, {ctxID, lookedUp}} {
+					gotN, err := pc.GetResults(context.Background(), main.ID, q.ctx, q.md)
+					if err != nil {
+						return
+					}
+					wantN := c17Spec(specInfo, q.ctx, q.md)
+					var gn, wn []string
+					for _, g := range gotN {
+						if g.Provider == nil {
+							gn = append(gn, "<nil provider>")
+							continue
+						}
+						gn = append(gn, specResult{g.Provider.ID, addrKey(g.Provider.Addrs), g.ContextID, g.Metadata}.String())
+					}
+					for _, w := range wantN {
+						wn = append(wn, w.String())
+					}
+					if strings.Join(gn, "\n") != strings.Join(wn, "\n") {
+						c.Fail(sub, i, "expansion-differs-on-a-later-lookup-of-the-same-record", fmt.Sprintf("lookup %d (context %x, metadata %x) after an earlier lookup with other arguments:\n got:\n  %s\nwant:\n  %s", round+2, q.ctx, q.md, strings.Join(gn, "\n  "), strings.Join(wn, "\n  ")), wit())
+						return
+					}
+				}
+				c.Inc("repeated_lookups_with_other_arguments")
+			}
 			// a newer record for the same provider changes extended providers IN PLACE (same context ids and
 			// peers; override flags, metadata, addresses differ): after a refresh the expansion follows it
 			if ss, isStatic := src.(*staticSource); isStatic && info.ExtendedProviders != nil && r.Intn(2) == 0 {
